@@ -80,6 +80,7 @@ func verifWrite(k int) (string, string, bool) {
 }
 
 func verifStdout() string { return verifOutBuf }
+func verifStderr() string { return verifErrBuf }
 
 // verifRunMain runs the real binary (VERIF_BIN) with the arguments set by
 // verifSetArgs in the directory built by verifSetFile.
